@@ -357,6 +357,11 @@ def bases_of(fn):
 
 def run(prog):
     out = []
+    # the nested traversal helpers of the DDNNFPtr::fold implementations are sinks for their pointer argument, under
+    # whatever name they carry
+    for f in prog.lib_fns:
+        if (f.parent or "").endswith("DDNNFPtr>::fold") and f.kind != "Closure":
+            SINKS.setdefault(f.name, (0,))
     out += accessor_contracts(prog)
     n_sinks = 0
     for fn in prog.lib_fns:
